@@ -27,6 +27,7 @@ type HarnessCfg struct {
 	MapOrder string         `json:"map_order,omitempty"`
 	MaxSec   int            `json:"max_sec,omitempty"`
 	What     string         `json:"what,omitempty"`
+	Optional []string       `json:"optional_labels,omitempty"`       // labels unreachable with this harness configuration
 	OptionalQuick []string  `json:"optional_labels_quick,omitempty"` // labels that need the thorough bounds to be reachable
 }
 
@@ -285,7 +286,7 @@ func cmdCheck(args []string) int {
 			if len(res.Problems) == 0 && res.Exhausted {
 				var missing []string
 				for _, l := range expect {
-					if *tier == "quick" && contains(h.OptionalQuick, l) {
+					if (*tier == "quick" && contains(h.OptionalQuick, l)) || contains(h.Optional, l) {
 						continue
 					}
 					if res.AssertHit[l] == 0 && res.Reached[l] == 0 {
